@@ -14,7 +14,7 @@ COMMON_NOTE = ("Trusted: Coq 8.16.1 kernel + vm_compute (no native_compute, no e
 
 # property -> (technique, level text, level note, design ref)
 CLAIMED = {
- "C01": ("Coq refinement theorem C01_response_is_spec (+ _v2 via C02): serve over the compiled row-level store = declarative spec_response over the declared records for every response class; per-case compile/serve/spec correspondence in Coq (vm_compute) against three real servers",
+ "C01": ("Coq end-to-end theorem C01_file_level (text of a well-formed data file -> codec model -> any C07 compiler pipeline -> CDB / RocksDB-v1 / RocksDB-v2 store -> serve model refines the declarative spec over the records the file declares), built from C01_response_is_spec, C02_v2_equals_v1, C07 losslessness and the link lemma convert = rows_of o declared; per-case compile/serve/spec correspondence in Coq (vm_compute) against three real servers",
          "Machine-checked theorems about an executable model of the lookup and serve path (v1 reader, v2 closest-key reader, handler) relating it to a short declarative specification over the declared records; the model runs over the real compiled database dumps and is compared with the responses of real CDB / RocksDB-v1 / RocksDB-v2 servers on generated data files and queries, the spec with the same responses.",
          COMMON_NOTE + "Weighted address choice is compared as a sub-multiset of the right size (C11 owns the draw); parts not yet proved carry the suffix _partial in Properties/C01.v.", "DESIGN.md section 6 C01"),
  "C02": ("Coq simulation theorem C02_v2_equals_v1 (closest-key reader = label-by-label reader on compiled stores, incl. seek_skip_sound and cache transparency), C02_three_backends; pairwise comparison of three real backends on generated files",
